@@ -4,6 +4,7 @@ import (
 	"fmt"
 	"go/token"
 	"go/types"
+	"sort"
 	"strings"
 
 	"golang.org/x/tools/go/ssa"
@@ -356,9 +357,12 @@ func C16(c *core.Ctx) {
 }
 
 // checkReaders runs the layout families; prefix distinguishes the C18 rows from the C16 ones.
-func checkReaders(c *core.Ctx, tabs *Tables, prefix string, full bool) {
+func checkReaders(c *core.Ctx, tabs *Tables, prefix string, full bool, only ...string) {
 	nEval := 0
 	for _, rd := range fastaReaders {
+		if len(only) > 0 && only[0] != rd.name {
+			continue
+		}
 		pos := funcPos(c, rd.pkg, rd.name)
 		key := prefix + "D/" + rd.name
 		var bad []string
@@ -429,6 +433,10 @@ func checkReaders(c *core.Ctx, tabs *Tables, prefix string, full bool) {
 			{"long last record", []string{">a", "ACGT", ">b", "ACGTA"}},
 			{"short first record", []string{">a", "AC", ">b", "ACGT", ">c", "ACGT"}},
 			{"wrapped records of unequal total length", []string{">a", "AC", "GT", ">b", "AC", "G"}},
+			{"empty first record followed by longer records", []string{">a", ">b", "ACGT", ">c", "ACGT"}},
+			{"two empty leading records followed by longer records", []string{">a", ">b", ">c", "ACGT", ">d", "ACGT"}},
+			{"empty middle record", []string{">a", "ACGT", ">b", ">c", "ACGT"}},
+			{"empty last record", []string{">a", "ACGT", ">b", "ACGT", ">c"}},
 			{"empty input", []string{}},
 			{"no leading header", []string{"ACGT", ">b", "ACGT"}},
 			{"header without any sequence", []string{">a"}},
@@ -487,7 +495,7 @@ func checkReaders(c *core.Ctx, tabs *Tables, prefix string, full bool) {
 		c.Ob(key+"/total-on-blank-lines-and-empty-headers", len(bad) == 0, pos, "%s", first(bad, 4))
 	}
 	// findReference: same scanner loop, returns the named record
-	{
+	if len(only) == 0 {
 		pos := funcPos(c, "pkg/variants", "findReference")
 		key := prefix + "D/findReference"
 		var bad []string
@@ -554,11 +562,13 @@ func checkReaders(c *core.Ctx, tabs *Tables, prefix string, full bool) {
 func c16Structural(c *core.Ctx) {
 	p := facts(c)
 	nScan := 0
+	lineLimits := map[string][]string{}
 	for _, f := range p.funcs {
 		if f.Parent() != nil || isDeprecatedIndels(f) {
 			continue
 		}
 		usesScanner, split, errChecked := false, false, false
+		maxTok := "default (64 KiB)"
 		allInstrs(f, func(fn *ssa.Function, ins ssa.Instruction) {
 			call, ok := ins.(ssa.CallInstruction)
 			if !ok {
@@ -571,6 +581,13 @@ func c16Structural(c *core.Ctx) {
 			switch cal.String() {
 			case "bufio.NewScanner":
 				usesScanner = true
+			case "(*bufio.Scanner).Buffer":
+				args := call.Common().Args
+				if k, ok := args[len(args)-1].(*ssa.Const); ok && k.Value != nil {
+					maxTok = k.Value.ExactString()
+				} else {
+					maxTok = "not a constant"
+				}
 			case "(*bufio.Scanner).Split":
 				split = true
 			case "(*bufio.Scanner).Err":
@@ -593,8 +610,16 @@ func c16Structural(c *core.Ctx) {
 			continue
 		}
 		nScan++
+		lineLimits[maxTok] = append(lineLimits[maxTok], f.Name())
 		c.Ob("D/"+f.Name()+"/default-split-function", !split, f.Pos(), "the reader installs a custom split function; line-ending handling is no longer bufio.ScanLines'")
 		c.Ob("D/"+f.Name()+"/scanner-error-consulted", errChecked, f.Pos(), "Scanner.Err() is never consulted: an over-long line or read error would be taken for end of input")
 	}
+	var lims []string
+	for k, fs := range lineLimits {
+		sort.Strings(fs)
+		lims = append(lims, k+" bytes: "+strings.Join(fs, ", "))
+	}
+	sort.Strings(lims)
+	c.Ob("D/readers-agree-on-the-longest-line-accepted", len(lineLimits) == 1, token.NoPos, "the readers accept different maximum line lengths, so one alignment is read or rejected depending on its wrapping and on the reader: %s", strings.Join(lims, "; "))
 	c.Floor("D/scanner-readers", nScan, 4)
 }
